@@ -79,7 +79,8 @@ func c09Raw(key [32]byte, counter [16]byte, in []byte, alias bool, extra int) er
 		{"salsa.genericXORKeyStream", salsa.VerifGenericXORKeyStream},
 	}
 	for _, im := range impls {
-		src := append([]byte{}, in...)
+		srcIn := newIn(in, 7*extra) // the input slice may have spare capacity
+		src := srcIn.s
 		var out []byte
 		if alias {
 			out = src
@@ -99,9 +100,11 @@ func c09Raw(key [32]byte, counter [16]byte, in []byte, alias bool, extra int) er
 			if !allA5(out[len(in):]) {
 				return fmt.Errorf("%s wrote beyond len(in)=%d", im.name, len(in))
 			}
-			if !bytes.Equal(src, in) {
-				return fmt.Errorf("%s modified its input", im.name)
+			if !srcIn.intact() {
+				return fmt.Errorf("%s modified its input or wrote into the spare capacity behind it", im.name)
 			}
+		} else if !allA5(src[len(in):cap(src)]) {
+			return fmt.Errorf("%s (in == out) wrote beyond len(in)=%d", im.name, len(in))
 		}
 		if k != key {
 			return fmt.Errorf("%s modified the key", im.name)
@@ -129,7 +132,8 @@ func c09Nonce(key [32]byte, nonce []byte, in []byte, alias bool, extra int) erro
 		copy(n[:], nonce)
 		want = refnacl.XSalsa20XOR(in, n, key)
 	}
-	src := append([]byte{}, in...)
+	srcIn, nonceIn := newIn(in, 7*extra), newIn(nonce, 5*extra)
+	src := srcIn.s
 	var out []byte
 	if alias {
 		out = src
@@ -137,7 +141,7 @@ func c09Nonce(key [32]byte, nonce []byte, in []byte, alias bool, extra int) erro
 		out = filled(len(in) + extra)
 	}
 	k := key
-	nn := append([]byte{}, nonce...)
+	nn := nonceIn.s
 	if err := catch(func() { salsa20.XORKeyStream(out, src, nn, &k) }); err != nil {
 		return fmt.Errorf("salsa20.XORKeyStream(len=%d, nonce=%x): %v", len(in), nonce, err)
 	}
@@ -145,10 +149,13 @@ func c09Nonce(key [32]byte, nonce []byte, in []byte, alias bool, extra int) erro
 		i := firstDiff(out, want)
 		return fmt.Errorf("salsa20.XORKeyStream(key=%x, nonce=%x, len=%d, in==out:%v): output differs from the specification at byte %d", key, nonce, len(in), alias, i)
 	}
-	if !alias && (!allA5(out[len(in):]) || !bytes.Equal(src, in)) {
+	if !alias && (!allA5(out[len(in):]) || !srcIn.intact()) {
 		return fmt.Errorf("salsa20.XORKeyStream wrote beyond len(in) or modified its input (len=%d)", len(in))
 	}
-	if k != key || !bytes.Equal(nn, nonce) {
+	if alias && !allA5(src[len(in):cap(src)]) {
+		return fmt.Errorf("salsa20.XORKeyStream (in == out) wrote beyond len(in)=%d", len(in))
+	}
+	if k != key || !nonceIn.intact() {
 		return fmt.Errorf("salsa20.XORKeyStream modified key or nonce")
 	}
 	return nil
